@@ -13,6 +13,13 @@ from simkit import tls as T
 from simkit import world as W
 from simkit.runner import Result, rng_for
 
+import os
+
+# https runs use cert_reqs=CERT_NONE (only naming is observed), so urllib3 loads the machine's default trust store for every
+# connection -- tens of milliseconds for the system bundle.  Point OpenSSL at the small throw-away CA instead.
+os.environ["SSL_CERT_FILE"] = T.CA_GOOD
+os.environ["SSL_CERT_DIR"] = "/nonexistent-verif-certdir"
+
 ID = "C15"
 ENGINE = "simnet"
 LEVEL = "exploration"
@@ -32,8 +39,8 @@ ASSUMPTIONS = [
     "a path/query mixing valid %XX escapes with stray '%' may be encoded either way",
 ]
 REQUIRED_PROBES = {
-    "quick": ["https", "ipv6", "ipv6_zone", "idn", "trailing_dot", "userinfo", "fragment", "dot_segments", "pair_shared_socket", "sibling_dialled_under_own_name", "second_life_checked", "proxy_forward", "proxy_tunnel", "default_port_explicit", "empty_path_query"],
-    "thorough": ["https", "ipv6", "ipv6_zone", "idn", "trailing_dot", "userinfo", "fragment", "dot_segments", "pair_shared_socket", "sibling_dialled_under_own_name", "second_life_checked", "proxy_forward", "proxy_tunnel", "default_port_explicit", "empty_path_query"],
+    "quick": ["https", "ipv6", "ipv6_zone", "idn", "trailing_dot", "userinfo", "fragment", "dot_segments", "pair_shared_socket", "sibling_dialled_under_own_name", "second_life_checked", "tunnel_setup_fault", "resolver_failed_once", "proxy_forward", "proxy_tunnel", "default_port_explicit", "empty_path_query"],
+    "thorough": ["https", "ipv6", "ipv6_zone", "idn", "trailing_dot", "userinfo", "fragment", "dot_segments", "pair_shared_socket", "sibling_dialled_under_own_name", "second_life_checked", "tunnel_setup_fault", "resolver_failed_once", "proxy_forward", "proxy_tunnel", "default_port_explicit", "empty_path_query"],
 }
 
 HOSTS = ["h.test", "H.Test", "A.B.EXAMPLE.test", "h.test.", "bücher.test", "BÜCHER.test", "10.0.0.5", "[fd00::5]", "[FD00::5]", "[fe80::1%25eth0]", "[fe80::1%eth0]", "xn--bcher-kva.test"]
@@ -68,6 +75,12 @@ def gen(rng):
     if f is not None:
         url += "#" + f
     sc = {"property": ID, "url": url, "via": rng.choice(["direct", "direct", "direct", "proxy"])}
+    if sc["via"] == "direct" and not host.startswith("[") and not host[0].isdigit() and rng.random() < 0.12:
+        # the resolver fails once (EAI_AGAIN) for the URL's spelling of the host; with retries the next attempt succeeds
+        sc["dns_fail_once"] = True
+    if sc["via"] == "proxy" and s == "https" and rng.random() < 0.3:
+        # the proxy drops the first connection while the tunnel is being set up (EOF or reset instead of an answer to CONNECT)
+        sc["connect_fault"] = rng.choice(["eof", "rst"])
     if rng.random() < 0.35:
         # an equivalent spelling: letter case of scheme/host, explicit default port
         h2 = host.swapcase() if not host.startswith("[") else host
@@ -158,7 +171,10 @@ def want_host_field(u: dict, with_zone: bool) -> str:
 def run(sc: dict) -> Result:
     res = Result()
     urllib3 = H.u3()
-    w = W.World({"dns_wildcard": True})
+    wsc = {"dns_wildcard": True}
+    if sc.get("dns_fail_once"):
+        wsc["dns_faults"] = {read_url(sc["url"])["host"]: 1, R.split(sc["url"])[1].rpartition("@")[2].partition(":")[0]: 1}
+    w = W.World(wsc)
     via = sc["via"]
 
     def origin(world, chan):
@@ -174,13 +190,15 @@ def run(sc: dict) -> Result:
         w.exchanges.append({"k": "resp", "status": 200, "keepalive": False})
     u0 = read_url(sc["url"])
     if via == "proxy":
+        if sc.get("connect_fault"):
+            w.connects.append({"k": sc["connect_fault"]})
         w.listen(None, 3128, H.origin_factory("proxy", "proxy"))
         w.tunnel_factory = lambda w_, chan, target: T.TlsPeer(w_, chan, lambda w2, c: P.HttpPeer(w2, c, "origin-in-tunnel", "origin", True), cert="any", name="origin-in-tunnel")
     else:
         w.tags["tls_ports"] = {u0["port"]: u0["scheme"] == "https"}
         w.default_listener = origin
     with H.RunEnv(), H.quiet_warnings(), w:
-        kw = dict(cert_reqs="CERT_NONE", timeout=3.0, retries=False)
+        kw = dict(cert_reqs="CERT_NONE", timeout=3.0, retries=(2 if sc.get("dns_fail_once") else False))
         pm = urllib3.ProxyManager("http://proxy.test:3128", **kw) if via == "proxy" else urllib3.PoolManager(**kw)
         outs = []
         for url in urls:
@@ -193,6 +211,27 @@ def run(sc: dict) -> Result:
             except Exception as e:
                 H.strip_tb(e)
                 outs.append(("err", e))
+        if via == "direct":
+            # the resolver is only ever asked for a host exactly as one of the scenario's URLs spells it (trailing dot included)
+            allowed = set()
+            for u_ in urls:
+                ru = read_url(u_)
+                allowed.add((ru["host"] + ("%" + ru["zone"] if ru["zone"] else "")).lower())
+                allowed.add(R.split(u_)[1].rpartition("@")[2].partition(":")[0].lower())  # as written (IDN before encoding)
+            for e_ in w.events:
+                if e_[1] == "dns" and e_[3][0].lower() not in allowed and not u0["v6"]:
+                    res.bad("wrong_host_dialled", f"the resolver was asked for {e_[3][0]!r}; the URLs name {sorted(allowed)!r}")
+                    break
+            if sc.get("dns_fail_once") and w.faults_fired.get("dns:eai_again"):
+                res.probes["resolver_failed_once"] += 1
+        if via == "proxy" and u0["scheme"] == "https":
+            # whatever became of the request: no connection to the proxy for an https URL may begin with anything but CONNECT
+            for s_ in w.sockets:
+                if s_.sent and not bytes(s_.sent).startswith(b"CONNECT "):
+                    res.bad("https_not_tunnelled", f"a connection to the proxy for {sc['url']!r} began with {bytes(s_.sent[:24])!r} instead of CONNECT")
+                    break
+            if sc.get("connect_fault") and w.faults_fired:
+                res.probes["tunnel_setup_fault"] += 1
         if outs[0][0] == "err":
             res.probes["rejected:" + type(outs[0][1]).__name__] += 1
         else:
@@ -386,6 +425,10 @@ def shrinks(sc):
     if sc.get("variant"):
         c = copy.deepcopy(sc)
         del c["variant"]
+        yield c
+    if sc.get("connect_fault") == "rst":
+        c = copy.deepcopy(sc)
+        c["connect_fault"] = "eof"
         yield c
     if sc.get("first_closes") and not sc.get("repeat"):
         c = copy.deepcopy(sc)
